@@ -322,20 +322,28 @@ func expected(w *witness) map[string]string {
 	if w.Level == 0 {
 		return exp
 	}
-	if w.Level == 1 {
-		direct := map[string]string{}
-		for _, t := range after.Targets {
-			if _, ok := exp[t.label()]; ok {
-				continue
-			}
-			for _, d := range after.resolved(idx, t) {
-				if _, ok := exp[d]; ok {
-					direct[t.label()] = "dependent"
+	if w.Level > 0 {
+		// a limited level: targets within w.Level resolved-dependency steps of that set
+		frontier := map[string]bool{}
+		for l := range exp {
+			frontier[l] = true
+		}
+		for step := 0; step < w.Level; step++ {
+			next := map[string]bool{}
+			for _, t := range after.Targets {
+				if _, ok := exp[t.label()]; ok {
+					continue
+				}
+				for _, d := range after.resolved(idx, t) {
+					if frontier[d] {
+						next[t.label()] = true
+					}
 				}
 			}
-		}
-		for k, v := range direct {
-			exp[k] = v
+			for l := range next {
+				exp[l] = "dependent"
+			}
+			frontier = next
 		}
 		return exp
 	}
@@ -1299,7 +1307,7 @@ func main() {
 		"repositories are legal: every input file belongs to the consuming target's own (closest) package, no directory input contains another package, labels resolve, graphs are acyclic before and after require/provide resolution",
 		"a target consumes a file iff the file is one of its srcs / named srcs / data / named data or lies below a directory listed there (tools given as plain strings are PATH lookups, not repository files)",
 		"one-sided oracle: over-reporting is never a violation; removed targets are not expected (documented in DiffGraphs)",
-		"level 0: consumers of changed files and targets that are new or whose definition (cmd, inputs, deps, data deps, requires, provides, test_cmd, config) differs; level 1: plus targets with a resolved dependency in that set; unlimited: every target of the after-graph whose recursive build key (definition + consumed file versions + keys of the targets it resolves its dependencies to) differs",
+		"level 0: consumers of changed files and targets that are new or whose definition (cmd, inputs, deps, data deps, requires, provides, test_cmd, config) differs; level N>0: plus targets within N resolved-dependency steps of that set; unlimited: every target of the after-graph whose recursive build key (definition + consumed file versions + keys of the targets it resolves its dependencies to) differs",
 		"subrepos, subincludes, include/exclude labels (manual), tools and per-configuration commands are not exercised",
 	}
 	extra := map[string]any{}
